@@ -218,20 +218,20 @@ def run(ctx):
                           "decrypt returned plaintext %r for a token that was never produced (fault %s on %s)" % (
                               obs[1][:24], label, rec["label"]),
                           replay_of(tok.ser, token, keys, snd, verify_all, "reject"))
-        if obs[0] == "ok" and not expect_reject and obs[1] != rec["plaintext"]:
+        if obs[0] == "ok" and not expect_reject and (obs[1] != rec["plaintext"] or not same_octets):
             ctx.violation({"kind": "wrong-plaintext", "fault": kind, "ser": tok.ser},
                           "decrypt returned a plaintext different from the encrypted one (%s on %s)" % (label, rec["label"]),
                           replay_of(tok.ser, token, keys, snd, verify_all, rec["plaintext"].hex()))
         if obs[0] == "err" and not lib.is_allowed_exn(obs[2]):
             bump("escaped-" + obs[1])      # C16's subject; counted, not reported here
-        if obs[0] == "err" and not expect_reject:
+        if obs[0] == "err" and expect_reject is False:
             ctx.violation({"kind": "legit-token-rejected", "fault": kind, "ser": tok.ser},
                           "a token that must decrypt was rejected (%s on %s): %s" % (label, rec["label"], obs[1]),
                           replay_of(tok.ser, token, keys, snd, verify_all, rec["plaintext"].hex()))
         add_case(tok.ser, token, keys, snd, verify_all, obs, logx, ("fault", label, rec["label"]))
         return obs
 
-    per = 3 if ctx.quick else None        # bit positions per segment
+    per = 2 if ctx.quick else None        # bit positions per segment
     if ctx.quick:
         # a subset that still sees every alg and every enc at least once, in every serialization
         chosen, seen = [], set()
@@ -239,8 +239,7 @@ def run(ctx):
             if r["label"].startswith("multi:"):
                 continue
             a, e, s = r["spec"]["algs"][0], r["spec"]["enc"], r["ser"]
-            fam = a.split("+")[0][:6]
-            key = [("a", a), ("e", e, s), ("fs", fam, s)]
+            key = [("a", a), ("e", e, s)]
             if any(k not in seen for k in key):
                 seen.update(key)
                 chosen.append(r)
@@ -248,7 +247,10 @@ def run(ctx):
     else:
         targets = [r for r in produced if not r["label"].startswith("multi:")]
 
+    prefix_done = set()
+    n_target = 0
     for rec in targets:
+        n_target += 1
         base = Tok(rec["ser"], rec["token"])
         # -- every bit (sampled in quick) of header / ek / iv / ct / tag / aad
         segs = [("header", base.header), ("iv", base.iv), ("ct", base.ct), ("tag", base.tag)]
@@ -266,7 +268,10 @@ def run(ctx):
                     t.recips[i]["ek"] = flip(r["ek"], bit)
                     attack(rec, t, "bit:ek:%d" % bit)
         # -- re-spellings of the protected header that parse to the same members
-        for label, hb in respellings(base.header):
+        rsp = respellings(base.header)
+        if ctx.quick and n_target > 10:
+            rsp = rsp[:1] + rng.sample(rsp[1:], min(3, len(rsp) - 1))
+        for label, hb in rsp:
             t = base.clone()
             t.header = hb
             attack(rec, t, "respell:" + label)
@@ -285,7 +290,9 @@ def run(ctx):
             attack(rec, t, "aad:extended")
         # -- tag truncation / extension (every prefix for CBC-HS), IV length changes
         is_cbc = rec["spec"]["enc"] in J.CBC_ENCS
-        lens = range(len(base.tag)) if (is_cbc or not ctx.quick) else [0, 1, 4, 8, 12, 15]
+        full = not ctx.quick or (is_cbc and rec["spec"]["enc"] not in prefix_done)
+        prefix_done.add(rec["spec"]["enc"])
+        lens = range(len(base.tag)) if full else [0, 1, 8, len(base.tag) - 1]
         for n in lens:
             t = base.clone()
             t.tag = base.tag[:n]
@@ -294,8 +301,9 @@ def run(ctx):
             t = base.clone()
             t.tag = base.tag + ext
             attack(rec, t, "taglen:extended:%d" % len(ext))
-        for label, iv in (("drop-last", base.iv[:-1]), ("drop-first", base.iv[1:]), ("empty", b""),
-                          ("extended", base.iv + b"\x00"), ("doubled", base.iv + base.iv)):
+        ivs = (("drop-last", base.iv[:-1]), ("drop-first", base.iv[1:]), ("empty", b""),
+               ("extended", base.iv + b"\x00"), ("doubled", base.iv + base.iv))
+        for label, iv in (ivs if not ctx.quick else (ivs[n_target % 2], ivs[2], ivs[3 + n_target % 2])):
             t = base.clone()
             t.iv = iv
             attack(rec, t, "ivlen:" + label)
@@ -393,8 +401,9 @@ def run(ctx):
             keys = list(rec["keys"])
             keys[i] = K.for_alg(spec["algs"][i], spec["enc"], spec["crv"], "alt")
             attack(rec, base.clone(), "multi:one-wrong-key:verify-all", keys=keys, verify_all=True)
-            if keys[i].key_type == rec["keys"][i].key_type:
-                attack(rec, base.clone(), "multi:one-wrong-key:any", keys=keys, verify_all=False, expect_reject=False)
+            # (RSA1_5 with a wrong key yields a pseudo-random CEK instead of an error: a second CEK -> rejected; allowed)
+            attack(rec, base.clone(), "multi:one-wrong-key:any", keys=keys, verify_all=False,
+                   expect_reject=None if spec["algs"][i] == "RSA1_5" else False)
         allwrong = [K.for_alg(a, spec["enc"], spec["crv"], "alt") for a in spec["algs"]]
         attack(rec, base.clone(), "multi:all-wrong-keys:any", keys=allwrong, verify_all=False)
         # one recipient's encrypted key replaced by another recipient's
@@ -424,8 +433,12 @@ def run(ctx):
         ctx.sample({"coq_case": cases[0][:300]})
 
     # ------------------------------------------------------------------ correspondence
-    ev = lib.CoqEval(J.IMPORTS, "jwecase", "jwe_check", "jwe_show", shard=60, max_chars=250000)
+    import time as _t
+    t_gen = _t.time() - ctx.t0
+    ev = lib.CoqEval(J.IMPORTS, "jwecase", "jwe_check", "jwe_show", shard=40, max_chars=200000, preamble=J.preamble())
     res = ev.run(cases)
+    ctx.coverage["timing"] = {"prove+generate_s": round(t_gen, 1), "coq_eval_s": round(_t.time() - ctx.t0 - t_gen, 1),
+                              "case_chars": sum(len(c) for c in cases)}
     ctx.coverage["traces_validated_against_impl"] = res["evaluated"]
     ctx.coverage["disagreements_checked"] = len(res["failing"])
     direct = len(ctx.violations)
